@@ -147,6 +147,8 @@ def rational_quadratic_spline(
 
         root = (2 * c) / (-b - torch.sqrt(discriminant))
         # root = (- b + torch.sqrt(discriminant)) / (2 * a)
+        # The root is a position within the bin; rounding must not push it outside [0, 1].
+        root = torch.clamp(root, 0, 1)
         outputs = root * input_bin_widths + input_cumwidths
         outputs = torch.clamp(outputs, left, right)
 
